@@ -7,7 +7,7 @@ import sys
 # the race-detector run of the concurrency cases costs a -race build of internal/e2e: thorough tier only
 _THOROUGH = "thorough" in sys.argv or os.environ.get("VERIF_TIER") == "thorough"
 _RACE = [Harness(name="concurrency-race", module="internal/e2e", pkg="internal/e2e",
-                 files={"zz_verif_c15_test.go": "c15/hop_test.go", "zz_verif_c15_fake_test.go": "c15/fake_test.go", "zz_verif_common_test.go": "c15/common_test.go"}, common=False,
+                 files={"zz_verif_c15_test.go": "c15/hop_test.go", "zz_verif_c15_fake_test.go": "c15/fake_test.go", "zz_verif_c15_gen_test.go": "c15/gen_test.go", "zz_verif_common_test.go": "c15/common_test.go"}, common=False,
                  test="TestVerifC15Conc", driver="drv_c15", n={"quick": 4, "thorough": 5}, timeout_s=1500, race=True)] if _THOROUGH else []
 
 SPEC = Spec(
@@ -16,7 +16,7 @@ SPEC = Spec(
     translators=[go_translator("otlptables", "OtelVerif/Gen/OtlpTables.lean")],
     harnesses=[
         Harness(name="hop", module="internal/e2e", pkg="internal/e2e",
-                files={"zz_verif_c15_test.go": "c15/hop_test.go", "zz_verif_c15_fake_test.go": "c15/fake_test.go", "zz_verif_common_test.go": "c15/common_test.go"}, common=False,
+                files={"zz_verif_c15_test.go": "c15/hop_test.go", "zz_verif_c15_fake_test.go": "c15/fake_test.go", "zz_verif_c15_gen_test.go": "c15/gen_test.go", "zz_verif_common_test.go": "c15/common_test.go"}, common=False,
                 test="TestVerifC15", driver="drv_c15", n={"quick": 1500, "thorough": 20000}, timeout_s=1500),
     ] + _RACE,
     rule="one long-lived pair of real OTLP receivers (gRPC+HTTP; one with a server-side authenticator) with a scripted consumer; per case "
